@@ -352,7 +352,17 @@ async fn prepare(path: &Path, migs: &[Value], vt: &str, init: &Value) -> Result<
         other => return Err(format!("unknown vt layout {}", other)),
     }
     exec_all(path, &stmts).await?;
-    Ok(json!({"k": k, "vt": layout, "applied": applied}))
+    // obstacles: objects created by hand before the run (natural engine failures of pending statements)
+    let mut applied = applied;
+    let mut obstacle_error = Value::Null;
+    if let Some(obs) = init["obstacles"].as_array() {
+        let obs: Vec<String> = obs.iter().filter_map(|x| x.as_str().map(|s| s.to_string())).collect();
+        match exec_all(path, &obs).await {
+            Ok(()) => applied.extend(obs),
+            Err(e) => obstacle_error = json!(e),
+        }
+    }
+    Ok(json!({"k": k, "vt": layout, "applied": applied, "obstacle_error": obstacle_error, "obstacles": init["obstacles"].clone()}))
 }
 
 async fn do_run(dispatch: Dispatch, migs: &[Value], prefix: &str, work: &Path, run: &Value) -> Result<Value, String> {
@@ -465,6 +475,11 @@ async fn do_run(dispatch: Dispatch, migs: &[Value], prefix: &str, work: &Path, r
                 grant(pid, &mut effective).await;
             }
             mids.push(observe(&path, &vt).await?);
+            // statements run by hand after this instance (e.g. the obstacle is removed before the re-run)
+            if let Some(b) = run["between"][pid].as_array() {
+                let b: Vec<String> = b.iter().filter_map(|x| x.as_str().map(|s| s.to_string())).collect();
+                exec_all(&path, &b).await?;
+            }
         }
     } else {
         loop {
@@ -496,7 +511,7 @@ async fn do_run(dispatch: Dispatch, migs: &[Value], prefix: &str, work: &Path, r
     }
     Ok(json!({"name": name, "variant": variant, "backend": run["backend"].as_str().unwrap_or("sqlite"), "dry": dry,
               "vt": vt, "init": init_echo, "before": before, "after": after, "instances": insts,
-              "schedule": effective, "sequential": sequential, "mids": mids, "tags": run["tags"].clone()}))
+              "schedule": effective, "sequential": sequential, "mids": mids, "between": run["between"].clone(), "tags": run["tags"].clone()}))
 }
 
 async fn refcats(migs: &[Value], work: &Path) -> Result<Vec<Value>, String> {
